@@ -9,8 +9,8 @@
 @*/
 /*@recipes
 {
- 'before_update': {'file': 'brush-builtins/src/declare.rs', 'start': r'const fn apply_attributes_before_update\(', 'mode': 'fn_body', 'self_to': 'this'},
- 'after_update': {'file': 'brush-builtins/src/declare.rs', 'start': r'fn apply_attributes_after_update\(', 'mode': 'fn_body', 'self_to': 'this'},
+ 'before_update': {'file': 'brush-builtins/src/declare.rs', 'start': r'(?:const )?fn apply_attributes_before_update\(', 'mode': 'fn_body', 'self_to': 'this', 'self_type': 'super::DeclareCommand'},
+ 'after_update': {'file': 'brush-builtins/src/declare.rs', 'start': r'fn apply_attributes_after_update\(', 'mode': 'fn_body', 'self_to': 'this', 'self_type': 'super::DeclareCommand'},
  'new_var': {'file': 'brush-builtins/src/declare.rs', 'start': r'let unset_type = if self\.make_indexed_array\.is_some\(\) \{', 'mode': 'until', 'end': r'context\.shell\.env_mut\(\)\.add\(name, var, scope\)\?;', 'self_to': 'this',
         'rewrites': [[r'this\.apply_attributes_before_update\(&mut var\)', r't_before(this, &mut var)', 1], [r'this\.apply_attributes_after_update\(&mut var, verb\)', r't_after(this, &mut var, verb)', 1]]},
 }
